@@ -185,6 +185,51 @@ AVS does not end the loop -/
 def epochEnd (regs : List AvsReg) (inputs : List (String × AvsIn)) (s : St) (id : String) (n : Int) : St :=
   hookLoop inputs s (selected regs id n)
 
+/-! ### the readers of the recorded values -/
+
+/-- operator/types OptedInfo, the fields a reader can look at. `none` (below): GetOptedInfo fails, the
+operator never opted in. -/
+structure OptedInfo where
+  optedOut : Bool      -- OptedOutHeight ≠ DefaultOptedOutHeight
+  jailed : Bool        -- Jailed (Jail / SetJailedState)
+deriving Repr, Inhabited, DecidableEq
+
+/-- operator.go: IsOptedIn -/
+def isOptedIn : Option OptedInfo → Bool
+  | none => false
+  | some i => !i.optedOut
+
+/-- operator.go: IsActive (opted in and not jailed): what GetActiveOperatorsForChainID filters by.
+NOT what the value reader is gated by. -/
+def isActive : Option OptedInfo → Bool
+  | none => false
+  | some i => !i.optedOut && !i.jailed
+
+def zeroOpted : Opted := { self := 0, total := 0, active := 0 }
+
+/-- a reader of the operator's entry, gated by `gate` (zeros when the gate is closed, the stored entry
+otherwise, ErrNoKeyInTheStore when there is none) -/
+def readOptedWith (gate : Option OptedInfo → Bool) (s : St) (avs op : String) (info : Option OptedInfo) :
+    Except String Opted :=
+  if !gate info then .ok zeroOpted
+  else
+    match find? (getD s.entries avs []) op with
+    | none => .error "ErrNoKeyInTheStore"
+    | some o => .ok o
+
+/-- usd_value.go: GetOperatorOptedUSDValue (also grpc_query.go: QueryOperatorUSDValue, precompiles/avs
+query.go: GetOperatorOptedUSDValue): gated by IsOptedIn; the Jailed flag is not read.
+Tie: Gen.optedValueReaderGates (Props/C05ReadersTie.lean). -/
+def readOpted (s : St) (avs op : String) (info : Option OptedInfo) : Except String Opted :=
+  readOptedWith isOptedIn s avs op info
+
+/-- usd_value.go: GetVotePowerForChainID for one operator: ActiveUSDValue.TruncateInt64 of the reader's
+answer (below 2^63 in every generated history) -/
+def votePower (s : St) (avs op : String) (info : Option OptedInfo) : Except String Int :=
+  match readOpted s avs op info with
+  | .error e => .error e
+  | .ok o => .ok (Dec.truncateInt ⟨o.active⟩)
+
 /-! ### the specification: the closed formula of the property -/
 
 /-- Σ over the assets the AVS supports of amount × price / 10^(asset decimals + price decimals),
